@@ -456,6 +456,10 @@ func (w *world) stepDiff() {
 			if _, err := rd.DiffTypeCheck(ctx, t.d); err != nil {
 				return err
 			}
+			if w.s.Flip("compare-variant", 0.4) {
+				_, _, _, _, err := t.d.(ldiff.CompareDiff).CompareDiff(ctx, rd)
+				return err
+			}
 			_, _, _, err := t.d.Diff(ctx, rd)
 			return err
 		})
@@ -465,6 +469,10 @@ func (w *world) stepDiff() {
 	w.guard("ldiff.Diff", fmt.Sprintf("remote that lies (mode %d)", lr.mode), 64, func() error {
 		ctx, cancel := context.WithTimeout(ctxb, time.Minute)
 		defer cancel()
+		if w.s.Flip("compare-variant", 0.4) { // the comparing variant is what the key-value store sync runs
+			_, _, _, _, err := t.d.(ldiff.CompareDiff).CompareDiff(ctx, lr)
+			return err
+		}
 		_, _, _, err := t.d.Diff(ctx, lr)
 		return err
 	})
@@ -583,7 +591,9 @@ func (w *world) stepHandshake() {
 			}
 		} else {
 			tp := byte(s.Choose("type", 5))
-			size := []uint32{0, 1, 7, 200 * 1024, 200*1024 + 1, 1 << 27, 1 << 29}[s.Choose("size", 7)]
+			// (claimed lengths up to 2^29, and the ones past the sign bit of a 32-bit number: a correct reader refuses all
+			// of them before allocating)
+			size := []uint32{0, 1, 7, 200 * 1024, 200*1024 + 1, 1 << 27, 1 << 29, 0x80000000, 0x80000001, 0xfffffff0, 0xffffffff}[s.Choose("size", 11)]
 			f = make([]byte, 5, 5+16)
 			f[0] = tp
 			binary.LittleEndian.PutUint32(f[1:5], size)
